@@ -504,3 +504,33 @@ def bcdmasks(facts: CppFacts):
     res.samples = [f"IsBcd: {len(consts)} constants folded for unsigned and uint64_t"]
     res.analysed = [PRELUDE]
     return res
+
+
+_NARROW_ALLONES = re.compile(r"~\s*0\s*[uU]?(?![0-9a-zA-Z_])(?!\s*[lL])|~\s*\(?\s*unsigned\s*\)?\s*\(?\s*0\s*\)?")
+
+
+def narrowlit(facts: CppFacts):
+    """R-NARROWLIT (C02/C03): an all-ones mask in the runtime has to be as wide as the value type it is applied to
+    (`~ValueType{0}`).  `~0`, `~0u`, `~0U` are 32 bits wide: combined with a 64-bit value they leave the upper half
+    unmasked or unchecked.  No runtime header may contain one outside comments.  The pattern is exercised on a built-in
+    positive example on every run."""
+    res = RuleResult("R-NARROWLIT")
+    sample = "return static_cast<ValueType>(~0U) & x; // and ~0u / 0xf, (~0) too"
+    if len(_NARROW_ALLONES.findall(re.sub(r"//[^\n]*", "", sample))) != 1 or not _NARROW_ALLONES.search("~0u / 0xf") \
+            or _NARROW_ALLONES.search("~ValueType{0}") or _NARROW_ALLONES.search("~0ULL"):
+        raise AnalysisError("R-NARROWLIT: built-in example no longer matches as expected")
+    res.control_fired = True
+    for h in facts.headers:
+        rel = f"runtime/cpp/{h}"
+        src = re.sub(r"//[^\n]*|/\*.*?\*/", lambda m_: " " * len(m_.group(0)) if "\n" not in m_.group(0) else re.sub(r"[^\n]", " ", m_.group(0)),
+                     facts.repo.read(rel), flags=re.S)
+        res.instances += 1
+        for mm in _NARROW_ALLONES.finditer(src):
+            line = src.count("\n", 0, mm.start()) + 1
+            ctx = src[max(0, mm.start() - 30):mm.end() + 20].replace("\n", " ")
+            fn = next((f_.name for f_ in facts.functions + facts.methods if f_.file == rel and f_.begin <= mm.start() < f_.end), "")
+            res.add(f"{rel}|{fn}|narrow-all-ones", f"{rel}:{line} uses a 32-bit all-ones literal (`...{ctx.strip()}...`): applied to a 64-bit value "
+                    "type the upper 32 bits are not covered by the mask", rel, line, fn)
+    res.samples = [f"{res.instances} runtime headers, no `~0`/`~0u` literal"]
+    res.analysed = [f"runtime/cpp/{h}" for h in facts.headers]
+    return res
